@@ -982,11 +982,11 @@ func (e *fenc) enc(v any, level int) string {
 	case complex64:
 		e.noteFloat(float64(real(a)))
 		e.noteFloat(float64(imag(a)))
-		return fmt.Sprintf("(VComplex 64 %s %s 0 0)", encFloatBits(float64(real(a))), encFloatBits(float64(imag(a))))
+		return encVal(v) // with the collator oracle fields (cmplx.Abs, cmplx.Phase): RoundTripRun.v ranks Set members
 	case complex128:
 		e.noteFloat(real(a))
 		e.noteFloat(imag(a))
-		return fmt.Sprintf("(VComplex 128 %s %s 0 0)", encFloatBits(real(a)), encFloatBits(imag(a)))
+		return encVal(v)
 	case int32:
 		e.noteRune(a)
 		if !utf8.ValidRune(a) {
@@ -1596,7 +1596,7 @@ func genFmt(prop string, seed uint64, tier, outDir string, count int) error {
 		"oracle_floats_checked(ParseFloat(text)==bits)": stats.floatsChk, "oracle_runes_checked(strconv.IsPrint==unicode.IsPrint)": stats.runesChk,
 		"map_order": "entries of a Map / Go map are listed in the order their key lines appear in the observed text; the text itself is compared exactly",
 	}
-	meta.Explain = "Definition the_case := nth {case} cases empty_case.\nDefinition Report := Eval vm_compute in (call_report the_case {step}, oracle_report the_case {step}).\nPrint Report.\n"
+	meta.Explain = "Definition the_case := nth {case} cases empty_case.\nDefinition Report := Eval vm_compute in (call_report the_case {step}, oracle_report the_case {step}, rt_report the_case {step}).\nPrint Report.\n"
 	shardSize := 50
 	for s := 0; s*shardSize < len(cases); s++ {
 		lo, hi := s*shardSize, (s+1)*shardSize
@@ -1605,9 +1605,9 @@ func genFmt(prop string, seed uint64, tier, outDir string, count int) error {
 		}
 		name := fmt.Sprintf("cases_%03d.v", s)
 		var sb strings.Builder
-		sb.WriteString("From Coq Require Import String.\nFrom Verif Require Import Base Value Formatter FormatSpec FormatRun.\nOpen Scope string_scope.\nOpen Scope Z_scope.\nDefinition cases : list fcase := [\n")
+		sb.WriteString("From Coq Require Import String.\nFrom Verif Require Import Base Value Formatter FormatSpec FormatRun RoundTripRun.\nOpen Scope string_scope.\nOpen Scope Z_scope.\nDefinition cases : list fcase := [\n")
 		sb.WriteString(strings.Join(cases[lo:hi], ";\n"))
-		sb.WriteString("].\nDefinition M := Eval vm_compute in fmismatches cases.\nPrint M.\n")
+		sb.WriteString("].\nDefinition M := Eval vm_compute in fmismatches_rt cases.\nPrint M.\n")
 		if err := os.WriteFile(filepath.Join(outDir, name), []byte(sb.String()), 0o644); err != nil {
 			return err
 		}
